@@ -349,6 +349,30 @@ pub fn posix_tz(data: &[u8]) -> R {
     if let Ok(tz) = TimeZone::posix(text) {
         accept();
         tz_battery("posix", &tz, &seeds_from(data))?;
+        // an accepted POSIX time zone prints to text that parses back to an equal zone with
+        // the same answers
+        let printed = match temporal::DateTimePrinter::new().time_zone_to_string(&tz) {
+            Ok(p) => p,
+            Err(e) => bail!("posix-unprintable", "{text:?} is accepted but cannot be printed: {e}"),
+        };
+        let again = [("TimeZone::posix", TimeZone::posix(&printed)), ("parse_time_zone", temporal::DateTimeParser::new().parse_time_zone(&printed))];
+        for (what, back) in again {
+            let back = match back {
+                Ok(b) => b,
+                Err(e) => bail!("posix-reprint-unparseable", "{text:?} prints as {printed:?}, which {what} rejects: {e}"),
+            };
+            if back != tz {
+                bail!("posix-reprint-not-equal", "{text:?} prints as {printed:?}, which {what} parses to a different zone");
+            }
+            for s in seeds_from(data) {
+                if let Ok(ts) = jiff::Timestamp::from_second(s) {
+                    let (x, y) = (tz.to_offset_info(ts), back.to_offset_info(ts));
+                    if x.offset() != y.offset() || x.dst() != y.dst() || x.abbreviation() != y.abbreviation() {
+                        bail!("posix-reprint-differs", "{text:?} -> {printed:?} ({what}): at {ts} the original says {:?} and the re-parsed zone {:?}", x, y);
+                    }
+                }
+            }
+        }
     }
     Ok(())
 }
